@@ -48,7 +48,7 @@ type c21Case struct {
 	HandlerMs int         `json:"handler_ms,omitempty"` // A's event handlers take this much fake time
 	WithMedia bool        `json:"with_media,omitempty"`
 	RecvOnly  bool        `json:"recv_only,omitempty"` // the peer also owns receive-only audio and video transceivers (no sender attached)
-	Busy      bool        `json:"busy,omitempty"` // another goroutine keeps calling the mutating API on A while it is closed
+	Busy      bool        `json:"busy,omitempty"`      // another goroutine keeps calling the mutating API on A while it is closed
 	DelayUs   int         `json:"delay_us"`
 	NetSeed   uint64      `json:"net_seed"`
 	// Coop: the close calls are tasks of the seeded cooperative scheduler (scheduling points at every
